@@ -12,12 +12,14 @@
 
 answer (one line, parts separated by " | "):
    parse ok size=<sizeof after initializer()> rest=<tokens left> | static <cells> | auto <cells> | emit <directives>
-   | spec <cells> over=<BraceOverride> xover=<AggExprOverride> wide=<WideRange> tyok=<type covered by C05_parse_spec_partial>
-     same=<model tree = spec tree> | cover <byte masks>
+   | spec <cells> over=<BraceOverride> xover=<AggExprOverride> wide=<WideRange> reinit=<FlexReinit>
+     tyok=<type covered by C05_parse_spec_partial> same=<model tree = spec tree> | cover <byte masks> | flex <n|-> <size>
+     (flex: the number of elements `flexResolved` finds in the flexible member's node and sizeof(struct) + n * sizeof(elem))
  a failing part prints `fail diag|crash|fuel <text>` instead.  cells: two hex digits, `@label+addend#k`, `??`.
 -/
 import ChibiVerif.Model.Init
 import ChibiVerif.Spec.InitSpec
+import ChibiVerif.Model.InitCursor
 
 namespace ChibiVerif.Driver.InitCmd
 open ChibiVerif.Init
@@ -168,7 +170,7 @@ def answer (ty : Ty) (toks : List ITok) : String :=
       let rty := resolveTy ty r.obj
       -- rendered with the conversions of simple assignment (6.7.9p11): the automatic back end's leaf stores
       let cells := part (autoObject r.obj rty) showCells
-      (r.obj, rty, s!"spec {cells} over={if r.over then 1 else 0} xover={if r.fl.xover then 1 else 0} wide={if r.fl.wide then 1 else 0} tyok={if InitSpec.tyOk ty then 1 else 0}")
+      (r.obj, rty, s!"spec {cells} over={if r.over then 1 else 0} xover={if r.fl.xover then 1 else 0} wide={if r.fl.wide then 1 else 0} reinit={if r.fl.reinit then 1 else 0} tyok={if InitSpec.tyOk ty then 1 else 0}")
     | .error e => (Init.flex, ty, "spec " ++ showFail e)
   match initializer fuel ty toks with
   | .error e => s!"parse {showFail e} | {specPart.2.2}"
@@ -180,7 +182,17 @@ def answer (ty : Ty) (toks : List ITok) : String :=
     s!"parse ok size={rty.size} rest={rest.length} | static {part st (fun im => showCells im.cells)} | " ++
     s!"auto {part (autoObject init rty) showCells} | " ++
     s!"emit {part st (fun im => " ".intercalate ((emitData im rty.size.toNat).map showDir))} | " ++
-    s!"{specPart.2.2} same={same} | cover {"".intercalate (mask.map hex2)}"
+    let flexPart := match ty with
+      | .struct ms sz true =>
+        (match flexResolved ms init.children with
+         | some (el, n) => s!"{n} {(sz : Int) + el.size * n}"
+         | none => "- -")
+      | _ => "- -"
+    let cursorOk := match gvarInitC Arms.code init rty, st with
+      | .ok a, .ok b => if a == b then "1" else "0"
+      | .error _, .error _ => "1"
+      | _, _ => "0"
+    s!"{specPart.2.2} same={same} | cover {"".intercalate (mask.map hex2)} | flex {flexPart} cursor={cursorOk}"
 
 partial def loop (h : IO.FS.Stream) : IO UInt32 := do
   let line ← h.getLine
